@@ -25,6 +25,7 @@ from .index import AnalysisError, ClassInfo, Repo, clone
 
 MAX_PATHS = 4000
 MAX_DEPTH = 5
+LOOP_BOUND = 5
 
 
 class Ev:
@@ -43,9 +44,11 @@ class Path:
         self.events: List[Ev] = []
         self.env: Dict[str, ast.expr] = {}
         self.end: Optional[Tuple[str, Optional[ast.expr], ast.AST]] = None
+        self.truncated = False      # a loop on this path would need more than LOOP_BOUND iterations
 
     def fork(self) -> 'Path':
         p = Path()
+        p.truncated = self.truncated
         p.events = list(self.events)
         p.env = dict(self.env)
         p.end = self.end
@@ -156,7 +159,7 @@ class Summarizer:
     def __init__(self, repo: Repo, rule: str = 'paths'):
         self.repo, self.rule = repo, rule
 
-    def paths(self, cls_name: str, meth: str, dyn: Optional[str] = None) -> List[Path]:
+    def paths(self, cls_name: str, meth: str, dyn: Optional[str] = None, allow_truncated: bool = False) -> List[Path]:
         dyn_ci = self.repo.cls(dyn or cls_name, self.rule)
         ci, fn = self.repo.method(cls_name, meth, self.rule)
         start = Path()
@@ -164,14 +167,24 @@ class Summarizer:
         for p in out:
             if p.end is None:
                 p.end = ('fall', None, fn)
+        self._truncation(out, allow_truncated, f'{cls_name}.{meth}')
         return out
 
-    def function_paths(self, module: str, name: str) -> List[Path]:
+    def _truncation(self, out, allow, what):
+        if allow:
+            return
+        bad = [p for p in out if p.truncated]
+        if bad:
+            raise AnalysisError(self.rule, what, f'`{ast.unparse(bad[0].end[2])[:50]}` may run more than {LOOP_BOUND} times: '
+                                                 'outside the bounded-loop subset of the path summariser')
+
+    def function_paths(self, module: str, name: str, allow_truncated: bool = False) -> List[Path]:
         m, fn = self.repo.function(module, name, self.rule)
         out = self._body(fn.body, [Path()], None, None, 0, fn, mod=m)
         for p in out:
             if p.end is None:
                 p.end = ('fall', None, fn)
+        self._truncation(out, allow_truncated, f'{module}.{name}')
         return out
 
     # ------------------------------------------------------------------------
@@ -283,7 +296,7 @@ class Summarizer:
         if isinstance(st, ast.Try):
             return self._try(st, p, ci, dyn, depth, fn, mod)
         if isinstance(st, ast.While):
-            raise AnalysisError(self.rule, fn.name, f'{type(st).__name__} is outside the loop-free subset of the path summariser')
+            return self._while(st, p, ci, dyn, depth, fn, mod)
         if isinstance(st, (ast.Import, ast.ImportFrom, ast.Global, ast.Nonlocal)):
             return [p]
         if isinstance(st, ast.Delete):
@@ -412,6 +425,47 @@ class Summarizer:
                 base = ast.unparse(subst(cur, p.env))
         return base, keys
 
+    def _while(self, st: ast.While, p: Path, ci, dyn, depth, fn, mod):
+        """Bounded unrolling: the paths that leave the loop after 0..LOOP_BOUND iterations, each guarded by the loop test as it
+        evaluates in that iteration.  The path that would need more iterations ends in ('bound', ...): rules that evaluate guards
+        against concrete states reject it when it is consistent with a state (analysis error), rules over all syntactic paths do
+        not accept summaries that contain it (Summarizer.paths(..., allow_truncated=False))."""
+        done: List[Path] = []
+        live = [p]
+        for i in range(LOOP_BOUND + 1):
+            nxt: List[Path] = []
+            for q in live:
+                test = self._inline_expr(subst(st.test, q.env), q, ci, dyn, depth)
+                const_true = isinstance(test, ast.Constant) and bool(test.value)
+                stay = q
+                if not const_true:
+                    leave = q.fork()
+                    leave.events.append(Ev('cond', st, test=test, polarity=False))
+                    done += self._body(st.orelse, [leave], ci, dyn, depth, fn, mod) if st.orelse else [leave]
+                    stay.events.append(Ev('cond', st, test=test, polarity=True))
+                if i == LOOP_BOUND:
+                    stay.end = ('bound', None, st)
+                    stay.truncated = True
+                    done.append(stay)
+                    continue
+                for r in self._body(st.body, [stay], ci, dyn, depth, fn, mod):
+                    if r.end is None:
+                        nxt.append(r)
+                    elif r.end[0] == 'break':
+                        r.end = None
+                        done.append(r)
+                    elif r.end[0] == 'continue':
+                        r.end = None
+                        nxt.append(r)
+                    else:
+                        done.append(r)
+            live = nxt
+            if len(done) + len(live) > MAX_PATHS:
+                raise AnalysisError(self.rule, fn.name, f'path explosion in `{ast.unparse(st)[:40]}`')
+            if not live:
+                break
+        return done
+
     def _for(self, st: ast.For, p: Path, ci, dyn, depth, fn, mod):
         # a loop over a short literal tuple / list of constants is unrolled
         lit = st.iter
@@ -514,7 +568,41 @@ class Summarizer:
                 res.append(o)
             return res
         self._record_call(call_s, st, p)
+        if target is not None:
+            # the callee is not inlined (loops / depth): what it may write to self is unknown from here on
+            for attr in sorted(self._written_attrs(target[0], target[1], dyn)):
+                p.env['self.' + attr] = ast.Call(ast.Name('__opaque__', ast.Load()),
+                                                 [ast.Constant(f'{target[0].name}.{target[1].name}'), ast.Constant(attr)], [])
         return [p]
+
+    def _written_attrs(self, cci, cfn, dyn, seen=None) -> set:
+        """self.<attr> names a method (with the self-methods it calls) may assign, augment, delete or mutate in place."""
+        seen = seen if seen is not None else set()
+        if id(cfn) in seen:
+            return set()
+        seen.add(id(cfn))
+        out = set()
+        for n in ast.walk(cfn):
+            tgts = []
+            if isinstance(n, ast.Assign):
+                tgts = n.targets
+            elif isinstance(n, (ast.AugAssign, ast.AnnAssign)):
+                tgts = [n.target]
+            elif isinstance(n, ast.Delete):
+                tgts = n.targets
+            elif isinstance(n, (ast.For, ast.comprehension)):
+                tgts = [n.target]
+            elif isinstance(n, ast.Call) and isinstance(n.func, ast.Attribute):
+                if n.func.attr in MUTATORS:
+                    tgts = [n.func.value]
+                t2 = self._resolve_self_call(n, cci, dyn)
+                if t2 is not None:
+                    out |= self._written_attrs(t2[0], t2[1], dyn, seen)
+            for t in tgts:
+                for x in ast.walk(t):
+                    if isinstance(x, ast.Attribute) and isinstance(x.value, ast.Name) and x.value.id == 'self':
+                        out.add(x.attr)
+        return out
 
     def _run_callee(self, cci, cfn, call_s, st, p: Path, dyn, depth):
         """Paths of the callee started from p; each result is (path, returned expression | None); a path that ends in raise
@@ -675,9 +763,27 @@ class Summarizer:
         return T().visit(e)
 
 
+def _counting_while(n: ast.While) -> bool:
+    """`while <comparison of names / attributes / constants>:` whose body reassigns one of the compared names: a counting loop, which
+    bounded unrolling can follow (anything else - `while True`, tests that call - stays an opaque callee)."""
+    if any(isinstance(x, (ast.Call, ast.Await, ast.NamedExpr)) for x in ast.walk(n.test)) or isinstance(n.test, ast.Constant):
+        return False
+    tested = {ast.unparse(x) for x in ast.walk(n.test) if isinstance(x, (ast.Name, ast.Attribute))}
+    for b in n.body:
+        for x in ast.walk(b):
+            tg = x.targets if isinstance(x, ast.Assign) else [x.target] if isinstance(x, (ast.AugAssign, ast.AnnAssign)) else []
+            for t in tg:
+                for y in (t.elts if isinstance(t, (ast.Tuple, ast.List)) else [t]):
+                    if ast.unparse(y) in tested:
+                        return True
+    return False
+
+
 def _has_loop(fn: ast.FunctionDef) -> bool:
     for n in ast.walk(fn):
-        if isinstance(n, (ast.While, ast.Try)):
+        if isinstance(n, ast.Try):
+            return True
+        if isinstance(n, ast.While) and not _counting_while(n):
             return True
         if isinstance(n, ast.For):
             # simple repeat loops are summarised
